@@ -19,7 +19,7 @@ func vRunC18(c *vCase) {
 	big := vChance(r, 0.03)
 	if big {
 		// rings of several MiB (the production ring is larger still): single reads of more than a MiB, few operations
-		size = vPick(r, 2<<20, 3<<20, (4<<20)+17)
+		size = vPick(r, 2<<20, 3<<20, (4<<20)+17, 40000, 100000, 65536)
 		c.Cov("histories_on_rings_of_several_MiB", 1)
 	}
 	name := fmt.Sprintf("verif_%d_%d", os.Getpid(), c.Idx)
@@ -185,6 +185,9 @@ func vRunC18(c *vCase) {
 			}
 		case k < 8:
 			kk := vPick(r, 1, 2, 3, 4, 7, 8, size-1, size, size+1, 1+r.Intn(size))
+			if size > 3*8192 && vChance(r, 0.4) {
+				kk = vPick(r, 8192, 8192, 4096, 3000, 16384) // the packet size the ring's description states, as its consumer reads
+			}
 			if kk < 1 {
 				kk = 1
 			}
@@ -223,6 +226,9 @@ func vRunC18(c *vCase) {
 			}
 		default:
 			kk := uint64(vPick(r, 1, 2, 3, 8, size, 1+r.Intn(size)))
+			if size > 3*8192 && vChance(r, 0.4) {
+				kk = uint64(vPick(r, 8192, 8192, 4096, 3000))
+			}
 			before := rpos
 			if err := rd.DiscardStride(kk); err != nil {
 				c.Violate("c18:discard-error", "DiscardStride error %v", err)
@@ -281,8 +287,8 @@ func init() {
 		},
 		Run: vRunC18,
 		Meta: vMeta{
-			Level: "exploration",
-			Rule:  "case = buffer size 2..4096 (incl. non powers of two), optional non-zero starting pointers, history of 20-420 operations Write/Read/ReadMultipleOf/ReadAll/DiscardStride with sizes around 0, 1, free, free±1, held, held±1, size, >size, negative; a real shared-memory ring with separate writer and reader handles; every written byte identifies its stream position, reads are copied at return and compared with a reference byte queue; non-trivial = the history wrapped the buffer at least once",
+			Level:       "exploration",
+			Rule:        "case = buffer size 2..4096 (incl. non powers of two), optional non-zero starting pointers, history of 20-420 operations Write/Read/ReadMultipleOf/ReadAll/DiscardStride with sizes around 0, 1, free, free±1, held, held±1, size, >size, negative; a real shared-memory ring with separate writer and reader handles; every written byte identifies its stream position, reads are copied at return and compared with a reference byte queue; non-trivial = the history wrapped the buffer at least once",
 			Assumptions: []string{"chunk/stride 0 is outside the API's domain (division by zero) and not generated", "a read may legitimately return fewer bytes than requested but must make progress when data are available; ReadAll must return everything"},
 			Guards: map[string]map[string]int{
 				"quick":    {"bytes_read": 1000000, "reads_across_wrap": 2000, "writes_across_wrap": 2000, "exactly_full": 2000, "exactly_empty": 2000, "discards_to_boundary": 1000, "discards_no_boundary_ahead": 300, "readmultiple": 5000},
